@@ -105,6 +105,8 @@ pub struct World {
     /// Some(property) while the file is exactly as vacuum / doctor left it
     pub verify_expect: Option<&'static str>,
     pub verify_expect_next: Option<&'static str>,
+    /// log index at which the current handle was opened (C17: what has it done since?)
+    pub handle_opened_at: usize,
 }
 
 /// true when the library will store this payload whole (no chunk plan)
@@ -203,6 +205,7 @@ impl World {
             applied_puts_last_commit: 0,
             verify_expect: None,
             verify_expect_next: None,
+            handle_opened_at: 0,
         };
         if !w.plain {
             shim::start(&w.dir, w.fault.clone(), w.fault_seed);
@@ -301,6 +304,9 @@ impl World {
         shim::set_faults_enabled(faults_on && !matches!(op, Op::Check));
         shim::mark(Kind::Begin, i as u64);
         let log_b = shim::log_len();
+        if matches!(op, Op::Create | Op::Open | Op::OpenRo) && self.mem.is_none() {
+            self.handle_opened_at = log_b;
+        }
         let seg = self.seg;
         let fired_before = shim::with_rec(|r| r.errors_fired).unwrap_or(0);
         let res = catch_unwind(AssertUnwindSafe(|| self.exec(i, op, log_b)));
@@ -789,7 +795,120 @@ impl World {
             }
             Op::Search(_) | Op::Timeline(_) | Op::SearchVec { .. } => crate::reads::exec_read(self, i, op),
             Op::Wal(_) => (false, true, None),
+            Op::Open2 | Op::Doctor2 => {
+                // C17: only meaningful while a writable handle is alive
+                if self.mem.is_none() || self.ro {
+                    return (false, true, None);
+                }
+                let what = self.lock_context();
+                let doctor = matches!(op, Op::Doctor2);
+                let r: Result<Option<Memvid>, MemvidError> = if doctor {
+                    // a report with status Failed (lock contention) is a refusal, not a success
+                    Memvid::doctor(&self.path, DoctorOptions { rebuild_time_index: false, rebuild_lex_index: false, rebuild_vec_index: false, vacuum: false, dry_run: false, quiet: true }).and_then(|rep| if rep.status == memvid_core::DoctorStatus::Failed { Err(MemvidError::Lock(format!("doctor reported Failed: {:?}", rep.findings.iter().map(|f| f.message.clone()).collect::<Vec<_>>()))) } else { Ok(None) })
+                } else {
+                    Memvid::open(&self.path).map(Some)
+                };
+                if doctor && r.is_ok() && self.writes_since(log_b).is_empty() {
+                    // a doctor run that found nothing to do only read the file: not a writable open
+                    self.probes_extra("second_doctor_read_only", 1);
+                    return (true, false, None);
+                }
+                match r {
+                    Ok(m2) => {
+                        // the second writer got in: everything the first handle believes is now stale
+                        self.model.unpredictable = true;
+                        let oracle = if doctor { "doctor-excluded-while-writer-alive" } else { "second-writer-excluded" };
+                        self.viol_sig(&["C17"], oracle, &what, format!("{} of the same path succeeded while a writable handle is alive ({what})", if doctor { "Memvid::doctor" } else { "a second writable Memvid::open" }), i);
+                        if let Some(mut m2) = m2 {
+                            // consequence clause: let both writers commit and see whether one is lost
+                            let tok2 = format!("second-writer-{i}");
+                            let o = PutOptions::default();
+                            let a = m2.put_bytes_with_options(tok2.as_bytes(), o).is_ok() && m2.commit().is_ok();
+                            drop(m2);
+                            let tok1 = format!("first-writer-{i}");
+                            let b = self.mem.as_mut().map(|m| m.put_bytes_with_options(tok1.as_bytes(), PutOptions::default()).is_ok() && m.commit().is_ok()).unwrap_or(false);
+                            if a && b {
+                                if let Some(m) = self.mem.take() {
+                                    drop(m);
+                                }
+                                if let Ok(mut m3) = Memvid::open(&self.path) {
+                                    let n = m3.frame_count() as u64;
+                                    let mut seen2 = false;
+                                    for id in 0..n {
+                                        if let Ok(b) = m3.frame_canonical_payload(id) {
+                                            if b == tok2.as_bytes() {
+                                                seen2 = true;
+                                            }
+                                        }
+                                    }
+                                    if !seen2 {
+                                        self.viol_sig(&["C17"], "commit-lost-to-concurrent-writer", &what, "both writers committed successfully; the second writer's acknowledged commit is gone after reopen".into(), i);
+                                    }
+                                    self.mem = Some(m3);
+                                }
+                            }
+                        }
+                        (true, false, None)
+                    }
+                    Err(e) => {
+                        if doctor && !self.writes_since(log_b).is_empty() {
+                            // observed, not judged: the refused doctor's planner re-writes the WAL's
+                            // zero sentinel; at API-call granularity that is idempotent and the
+                            // property statement does not forbid it
+                            self.probes_extra("refused_doctor_sentinel_writes", 1);
+                        }
+                        self.probes_extra(if doctor { "second_doctor_refused" } else { "second_open_refused" }, 1);
+                        self.probes_extra(&format!("refused_{}", what.replace(['-', ':'], "_")), 1);
+                        (false, false, Some(errs(&e)))
+                    }
+                }
+            }
+            Op::LockProbe => {
+                if self.mem.is_none() || self.ro {
+                    return (false, true, None);
+                }
+                let what = self.lock_context();
+                let cpath = std::ffi::CString::new(self.path.clone()).unwrap();
+                let got = unsafe {
+                    let fd = libc::open(cpath.as_ptr(), libc::O_RDWR);
+                    if fd < 0 {
+                        return (false, false, Some("probe open failed".into()));
+                    }
+                    let mut rc;
+                    loop {
+                        rc = libc::flock(fd, libc::LOCK_EX | libc::LOCK_NB);
+                        if rc == 0 || *libc::__errno_location() != libc::EINTR {
+                            break;
+                        }
+                    }
+                    if rc == 0 {
+                        libc::flock(fd, libc::LOCK_UN);
+                    }
+                    libc::close(fd);
+                    rc == 0
+                };
+                self.probes_extra("flock_probes", 1);
+                if got {
+                    self.viol_sig(&["C17"], "exclusive-lock-held", &what, format!("a third party obtained flock(LOCK_EX|LOCK_NB) on the path while a writable handle is alive ({what})"), i);
+                }
+                (true, false, None)
+            }
+            Op::Downgrade => {
+                if self.mem.is_none() || self.ro {
+                    return (false, true, None);
+                }
+                match self.mem.as_mut().unwrap().downgrade_to_shared() {
+                    Ok(()) => (true, false, None),
+                    Err(e) => (false, false, Some(errs(&e))),
+                }
+            }
         }
+    }
+
+    /// C17 signature class: has the live handle replaced the file (commit, automatic checkpoint,
+    /// vacuum) since it was opened?
+    fn lock_context(&self) -> String {
+        if self.log_range_has(self.handle_opened_at, Kind::Rename) { "after-commit".to_string() } else { "before-first-commit".to_string() }
     }
 
     fn forbidden_sidecar_present(&self) -> bool {
